@@ -93,8 +93,9 @@ Qed.
 
 Lemma sval_eq_str_iff o s : sval_eq_str o s = true <-> o = Some (SV (VStr s)).
 Proof.
-  destruct o as [[v|]|]; simpl.
+  destruct o as [[v| |n]|]; simpl.
   - rewrite py_eq_str_iff. split; [intros ->; reflexivity|intros H; now inversion H].
+  - split; discriminate.
   - split; discriminate.
   - split; discriminate.
 Qed.
